@@ -352,7 +352,8 @@ def analyse(walker_qual, opname, specs, handler=None, ctor=None, max_paths=300, 
     repo, ops, ht = get_repo(), get_ops(), get_tables()
     h = handler or ht.table(walker_qual)[ops.id(opname)]
     ctor = ctor or ctor_of(opname)
-    config = "%s(%s)" % (opname, ", ".join(spec_str(s) for s in specs))
+    config = "%s(%s%s)" % (opname, ", ".join(spec_str(s) for s in specs),
+                           "".join(", %s=%s" % kv for kv in sorted((payload_kwargs or {}).items())))
     if ctor is None:
         return [RuleVerdict("unsupported", config, [], "no constructor for %s" % opname)]
 
